@@ -1,6 +1,6 @@
 ------------------------------- MODULE MC_SHAPE -------------------------------
 (* Small-scope instance for the shape family (SFShape): reindex / roll / shift / head / tail / duplicated /      *)
-(* drop_duplicated / isin / transpose / clip on one Frame and one Series.  State = one call (cs) and its result. *)
+(* drop_duplicated / isin / transpose / clip / searchsorted on one Frame and one Series.  State = one call (cs) and its result. *)
 (* The invariants restate each operation declaratively (what a user relies on) against the constructive          *)
 (* definition that the conformance legs replay.                                                                  *)
 EXTENDS SFOps
@@ -35,6 +35,10 @@ HSer2 == [index |-> HLab2, vals |-> [i \in 1..4 |-> I(10 * i)], dt |-> DtI64, na
 HSer3 == [index |-> HLab3, vals |-> [i \in 1..5 |-> I(10 * i)], dt |-> DtI64, name |-> <<"s", "h">>]
 HF == [index |-> HLab3, columns |-> <<T2(S("q"), I(2)), T2(S("q"), I(1)), T2(S("p"), I(2))>>, name |-> None,
        cols |-> <<[dt |-> DtI64, vals |-> [i \in 1..5 |-> I(i)]], [dt |-> DtF64, vals |-> [i \in 1..5 |-> <<"f", 2 * i + 1, 2>>]], [dt |-> DtI64, vals |-> [i \in 1..5 |-> I(100 + i)]]>>]
+(* searchsorted subjects: ascending values with a repeat, under string labels; ascending integer labels; and Ser (not ascending for NR >= 3) *)
+AscSer == [index |-> RowLab, vals |-> [i \in 1..NR |-> <<"f", <<1, 3, 3, 5>>[i], IF i = 1 THEN 1 ELSE 2>>], dt |-> DtF64, name |-> None]
+IxSer == [index |-> [i \in 1..NR |-> I(10 * i)], vals |-> [i \in 1..NR |-> I(i)], dt |-> DtI64, name |-> None]
+Queries == {I(0), I(1), <<"f", 3, 2>>, I(2), <<"f", 5, 2>>, I(10), I(15), I(30), I(31)}
 DepthMaps(d) == {m \in [1..d -> 0..(d - 1)] : TRUE} \cup {<<0>>}      \* every map, valid or not, and one of the wrong length
 
 InitCases ==
@@ -54,6 +58,10 @@ InitCases ==
   \/ \E lo \in Bounds, hi \in Bounds, s \in {Ser, SerF} : cs = [op |-> "s_clip", s |-> s, lo |-> lo, hi |-> hi]
   \/ \E lo \in Bounds, hi \in Bounds : cs = [op |-> "f_clip", f |-> [F EXCEPT !.columns = SubSeq(ColLab, 1, MinI(NC, 3)), !.cols = SubSeq(F.cols, 1, MinI(NC, 3))], lo |-> lo, hi |-> hi]
 
+  \/ \E sb \in {<<AscSer, "values">>, <<IxSer, "index">>, <<IxSer, "values">>, <<Ser, "values">>}, q \in Queries, left \in BOOLEAN, loc \in BOOLEAN, v \in {NaN, I(0 - 1)} :
+        cs = [op |-> "s_searchsorted", s |-> sb[1], on |-> sb[2], q |-> <<q>>, many |-> FALSE, left |-> left, loc |-> loc, v |-> v]
+  \/ \E sb \in {<<AscSer, "values">>, <<IxSer, "index">>}, left \in BOOLEAN, loc \in BOOLEAN :
+        cs = [op |-> "s_searchsorted", s |-> sb[1], on |-> sb[2], q |-> <<I(31), I(0), <<"f", 3, 2>>, I(20)>>, many |-> TRUE, left |-> left, loc |-> loc, v |-> NaN]
   \/ \E h \in {HSer2, HSer3}, x \in {<<"s", "X">>, <<"i", 0>>} : cs = [op |-> "s_level_add", s |-> h, v |-> x]
   \/ \E h \in {HSer2, HSer3}, n \in 1..2 : (n < HDepth(h.index)) /\ cs = [op |-> "s_level_drop", s |-> h, n |-> n]
   \/ \E dm \in DepthMaps(2) : cs = [op |-> "s_rehierarch", s |-> HSer2, dm |-> dm]
@@ -131,6 +139,21 @@ RehierarchExact ==
 LevelAddDropRoundTrip ==
   (Done /\ cs.op = "s_level_add" /\ res.k = "series") =>
      SeriesLevelDrop([index |-> res.index, vals |-> res.vals, dt |-> res.dt, name |-> res.name], 1) = AsSeries(cs.s)
+(* searchsorted brackets the value: everything before the reported position is below it (side left: strictly), everything from it on is not; *)
+(* the label form reports the label at that position and the fill only past the end                                                       *)
+SearchSortedBrackets ==
+  (Done /\ cs.op = "s_searchsorted" /\ ~cs.many /\ res.k = "elem") =>
+     LET xs == IF cs.on = "values" THEN cs.s.vals ELSE cs.s.index
+         v == SKey(cs.q[1])
+         below(x) == IF cs.left THEN QLt(SKey(x), v) ELSE QLe(SKey(x), v)
+         ok(p) == (\A i \in 1..p : below(xs[i])) /\ (\A i \in (p + 1)..Len(xs) : ~below(xs[i]))
+     IN IF ~cs.loc THEN res.v[1] = "i" /\ res.v[2] \in 0..Len(xs) /\ ok(res.v[2])
+        ELSE \/ res.v = SCanon(cs.v) /\ ok(Len(xs))
+             \/ \E p \in 0..(Len(xs) - 1) : res.v = SCanon(cs.s.index[p + 1]) /\ ok(p)
+(* the array form is the element form applied to every value *)
+SearchSortedPointwise ==
+  (Done /\ cs.op = "s_searchsorted" /\ cs.many /\ res.k = "array") =>
+     \A i \in 1..Len(cs.q) : Elem(res.vals[i]) = SeriesSearchSorted(cs.s, cs.on, <<cs.q[i]>>, FALSE, cs.left, cs.loc, cs.v)
 (* negative control: a roll that also reorders within the columns would not be invertible (never holds) *)
 NegRollIsIdentity == (Done /\ cs.op = "f_roll" /\ res.k = "frame") => res.cols = cs.f.cols
 =============================================================================
